@@ -269,8 +269,31 @@ def classify_optimal(case):
 # 2. lower/upper = explicit leave-one-group-out loop; ordering for singleton groups
 
 @st.composite
+def many_groups(draw):
+    """the everyday group study: 18-24 subjects with 1-3 sessions each (labels sub-NN, float or
+    date-like ids), 3-4 conditions, no missing entries"""
+    n_sub = draw(st.integers(18, 24))
+    sessions = [draw(st.sampled_from([2, 2, 1, 3])) for _ in range(n_sub)]
+    sessions[0] = 2
+    names = draw(st.sampled_from(['sub', 'float', 'date']))
+    ids = draw(gen.permutation(n_sub))
+    lab = {'sub': lambda i: 'sub-%02d' % (i + 1), 'float': lambda i: 0.5 + i / 4.0,
+           'date': lambda i: 20240100 + i}[names]
+    groups = [lab(ids[i]) for i in range(n_sub) for _ in range(sessions[i])]
+    order = draw(gen.permutation(len(groups)))
+    if draw(st.booleans()):
+        groups = [groups[i] for i in order]       # sessions of a subject not adjacent
+    k = len(groups)
+    n = draw(st.integers(3, 4))
+    kind = draw(st.sampled_from(['pos', 'float']))
+    p = ref.n_pairs(n)
+    return dict(kind=kind, mask_kind='none', n=n, mask=[True] * p, groups=groups,
+                rows=spread_rows(draw(data_rows(k, p, kind)), [True] * p))
+
+
+@st.composite
 def loo_case(draw):
-    case = draw(stack())
+    case = draw(many_groups()) if draw(st.integers(0, 7)) == 0 else draw(stack())
     case['method'] = draw(st.sampled_from(ALL_METHODS))
     return case
 
